@@ -15,19 +15,19 @@ theorem Tail.counters {t : Tid} {S R : State} {th : Th} (h : Tail t S th R) :
 
 theorem acquire_counters {c : Cfg} {s s1 : State} {t : Tid} {i : Nat} {d : Dir} (h : acquire c s t i d = some s1) :
     s1.obtained = s.obtained ∧ s1.returned = s.returned ∧ s1.injected = s.injected ∧ s1.recLog = s.recLog ∧
-      s1.pushLog = s.pushLog := by
-  obtain ⟨sl, -, -, -, rfl⟩ := acquire_spec h; exact ⟨rfl, rfl, rfl, rfl, rfl⟩
+      s1.pushLog = s.pushLog ∧ s1.bufs = s.bufs := by
+  obtain ⟨sl, -, -, -, rfl⟩ := acquire_spec h; exact ⟨rfl, rfl, rfl, rfl, rfl, rfl⟩
 
 theorem takeVal_counters {c : Cfg} {s s1 : State} {t : Tid} {i : Nat} {d : Dir} {p : Tok} (h : takeVal c s t i d = some (s1, p)) :
     s1.obtained = s.obtained ∧ s1.returned = s.returned ∧ s1.injected = s.injected ∧ s1.recLog = s.recLog ∧
-      s1.pushLog = s.pushLog := by
-  obtain ⟨sl, -, -, -, rfl⟩ := takeVal_spec h; exact ⟨rfl, rfl, rfl, rfl, rfl⟩
+      s1.pushLog = s.pushLog ∧ s1.bufs = s.bufs := by
+  obtain ⟨sl, -, -, -, rfl⟩ := takeVal_spec h; exact ⟨rfl, rfl, rfl, rfl, rfl, rfl⟩
 
 theorem publish_counters {c : Cfg} {s s1 : State} {t : Tid} {i : Nat} {d : Dir} {put : Option Tok}
     (h : publish c s t i d put = some s1) :
     s1.obtained = s.obtained ∧ s1.returned = s.returned ∧ s1.injected = s.injected ∧ s1.recLog = s.recLog ∧
-      s1.pushLog = s.pushLog := by
-  obtain ⟨sl, -, -, -, rfl⟩ := publish_spec h; exact ⟨rfl, rfl, rfl, rfl, rfl⟩
+      s1.pushLog = s.pushLog ∧ s1.bufs = s.bufs := by
+  obtain ⟨sl, -, -, -, rfl⟩ := publish_spec h; exact ⟨rfl, rfl, rfl, rfl, rfl, rfl⟩
 
 @[simp] theorem setCtr_injected (s : State) (d : Dir) (v : Nat) : (s.setCtr d v).injected = s.injected := by cases d <;> rfl
 @[simp] theorem setCtr_recLog (s : State) (d : Dir) (v : Nat) : (s.setCtr d v).recLog = s.recLog := by cases d <;> rfl
@@ -36,13 +36,13 @@ theorem publish_counters {c : Cfg} {s s1 : State} {t : Tid} {i : Nat} {d : Dir} 
 /-- single-element pool steps and the recycler step leave the upstream counters alone -/
 theorem stepThread_strict_counters {c : Cfg} {s s' : State} {t : Tid} {tok : Tok} {spur : Bool} {l : Option Act}
     (h : stepThread c s t tok spur = some (s', l)) (hp : (s.th t).pc = .pRecycle ∨ (s.th t).pc.inS = true) :
-    s'.obtained = s.obtained ∧ s'.returned = s.returned ∧ s'.injected = s.injected := by
+    s'.obtained = s.obtained ∧ s'.returned = s.returned ∧ s'.injected = s.injected ∧ s'.bufs = s.bufs := by
   unfold stepThread at h; dsimp only at h
   split at h
   all_goals (rename_i hpc; try (rw [hpc] at hp; simp at hp; done))
   · unfold stepPRecycle at h
     (repeat' split at h) <;> (try (simp at h; done)) <;> simp only [Option.some.injEq, Prod.mk.injEq] at h <;>
-      obtain ⟨hres, -⟩ := h <;> subst hres <;> exact ⟨rfl, rfl, rfl⟩
+      obtain ⟨hres, -⟩ := h <;> subst hres <;> exact ⟨rfl, rfl, rfl, rfl⟩
   · unfold stepSTkt at h; dsimp only at h
     simp only [Option.some.injEq, Prod.mk.injEq] at h; obtain ⟨hres, -⟩ := h; subst hres; simp [State.setTh]
   · unfold stepDlWait at h
@@ -50,41 +50,41 @@ theorem stepThread_strict_counters {c : Cfg} {s s' : State} {t : Tid} {tok : Tok
     · simp at h
     · rename_i s1 ha
       simp only [Option.some.injEq, Prod.mk.injEq] at h; obtain ⟨hres, -⟩ := h; subst hres
-      have := acquire_counters ha; exact ⟨this.1, this.2.1, this.2.2.1⟩
+      have := acquire_counters ha; exact ⟨this.1, this.2.1, this.2.2.1, this.2.2.2.2.2⟩
   · unfold stepDlCb at h
     split at h
     · simp at h
     · rename_i s1 p ha
       simp only [Option.some.injEq, Prod.mk.injEq] at h; obtain ⟨hres, -⟩ := h; subst hres
-      have := takeVal_counters ha; exact ⟨this.1, this.2.1, this.2.2.1⟩
+      have := takeVal_counters ha; exact ⟨this.1, this.2.1, this.2.2.1, this.2.2.2.2.2⟩
   · unfold stepDlPub at h
     (repeat' split at h) <;> (try (simp at h; done)) <;> simp only [Option.some.injEq, Prod.mk.injEq] at h <;>
-      obtain ⟨hres, -⟩ := h <;> subst hres <;> (rename_i ha; have := publish_counters ha; exact ⟨this.1, this.2.1, this.2.2.1⟩)
+      obtain ⟨hres, -⟩ := h <;> subst hres <;> (rename_i ha; have := publish_counters ha; exact ⟨this.1, this.2.1, this.2.2.1, this.2.2.2.2.2⟩)
   · unfold stepSIdx at h
-    simp only [Option.some.injEq, Prod.mk.injEq] at h; obtain ⟨hres, -⟩ := h; subst hres; exact ⟨rfl, rfl, rfl⟩
+    simp only [Option.some.injEq, Prod.mk.injEq] at h; obtain ⟨hres, -⟩ := h; subst hres; exact ⟨rfl, rfl, rfl, rfl⟩
   · unfold stepSVer at h
     split at h
     · simp at h
-    · simp only [Option.some.injEq, Prod.mk.injEq] at h; obtain ⟨hres, -⟩ := h; subst hres; exact ⟨rfl, rfl, rfl⟩
+    · simp only [Option.some.injEq, Prod.mk.injEq] at h; obtain ⟨hres, -⟩ := h; subst hres; exact ⟨rfl, rfl, rfl, rfl⟩
   · unfold stepSIdx2 at h; dsimp only at h
-    split at h <;> simp only [Option.some.injEq, Prod.mk.injEq] at h <;> obtain ⟨hres, -⟩ := h <;> subst hres <;> exact ⟨rfl, rfl, rfl⟩
+    split at h <;> simp only [Option.some.injEq, Prod.mk.injEq] at h <;> obtain ⟨hres, -⟩ := h <;> subst hres <;> exact ⟨rfl, rfl, rfl, rfl⟩
   · unfold stepSCas at h; dsimp only at h
     split at h
     · split at h
       · simp at h
       · rename_i s1 ha
         simp only [Option.some.injEq, Prod.mk.injEq] at h; obtain ⟨hres, -⟩ := h; subst hres
-        have := acquire_counters ha; exact ⟨this.1, this.2.1, this.2.2.1⟩
-    · simp only [Option.some.injEq, Prod.mk.injEq] at h; obtain ⟨hres, -⟩ := h; subst hres; exact ⟨rfl, rfl, rfl⟩
+        have := acquire_counters ha; exact ⟨this.1, this.2.1, this.2.2.1, this.2.2.2.2.2⟩
+    · simp only [Option.some.injEq, Prod.mk.injEq] at h; obtain ⟨hres, -⟩ := h; subst hres; exact ⟨rfl, rfl, rfl, rfl⟩
   · unfold stepSCb at h
     split at h
     · simp at h
     · rename_i s1 p ha
       simp only [Option.some.injEq, Prod.mk.injEq] at h; obtain ⟨hres, -⟩ := h; subst hres
-      have := takeVal_counters ha; exact ⟨this.1, this.2.1, this.2.2.1⟩
+      have := takeVal_counters ha; exact ⟨this.1, this.2.1, this.2.2.1, this.2.2.2.2.2⟩
   · unfold stepSPub at h
     (repeat' split at h) <;> (try (simp at h; done)) <;> simp only [Option.some.injEq, Prod.mk.injEq] at h <;>
-      obtain ⟨hres, -⟩ := h <;> subst hres <;> (rename_i ha; have := publish_counters ha; exact ⟨this.1, this.2.1, this.2.2.1⟩)
+      obtain ⟨hres, -⟩ := h <;> subst hres <;> (rename_i ha; have := publish_counters ha; exact ⟨this.1, this.2.1, this.2.2.1, this.2.2.2.2.2⟩)
 
 
 /-! ### strict mode -/
@@ -96,6 +96,7 @@ structure StrictInv (c : Cfg) (s : State) : Prop where
   pcs : ∀ t, strictPc (s.th t).pc
   obt : s.obtained = s.injected
   ret : s.returned = 0
+  bufs : s.bufs.flatten = []
 
 theorem callOp_strict {c : Cfg} {s s' : State} {t : Tid} {op : Op} (hm : c.mode = Mode.poolStrict)
     (h : callOp c s t op = some s') (hi : StrictInv c s) : StrictInv c s' := by
@@ -112,16 +113,16 @@ theorem callOp_strict {c : Cfg} {s s' : State} {t : Tid} {op : Op} (hm : c.mode 
       split at h
       · simp at h
       · simp only [Option.some.injEq] at h; subst h
-        exact ⟨hi.pcs, by simp [hi.obt], hi.ret⟩
+        exact ⟨hi.pcs, by simp [hi.obt], hi.ret, hi.bufs⟩
     | pop =>
       simp only [hm, Option.some.injEq] at h; subst h
-      refine ⟨fun u => ?_, hi.obt, hi.ret⟩
+      refine ⟨fun u => ?_, hi.obt, hi.ret, hi.bufs⟩
       simp only [State.setTh]; split
       · right; right; right; rfl
       · exact hi.pcs u
     | tryPop =>
       simp only [hm, Option.some.injEq] at h; subst h
-      refine ⟨fun u => ?_, hi.obt, hi.ret⟩
+      refine ⟨fun u => ?_, hi.obt, hi.ret, hi.bufs⟩
       simp only [State.setTh]; split
       · right; right; right; rfl
       · exact hi.pcs u
@@ -129,7 +130,7 @@ theorem callOp_strict {c : Cfg} {s s' : State} {t : Tid} {op : Op} (hm : c.mode 
       simp only [hm] at h
       split at h
       · simp only [Option.some.injEq] at h; subst h
-        refine ⟨fun u => ?_, hi.obt, hi.ret⟩
+        refine ⟨fun u => ?_, hi.obt, hi.ret, hi.bufs⟩
         simp only [State.setTh]; split
         · right; right; left; rfl
         · exact hi.pcs u
@@ -149,7 +150,7 @@ theorem step_strict {c : Cfg} {s s' : State} (hm : c.mode = Mode.poolStrict) (h 
       · exact Or.inl h1
       · exact Or.inr h1
     have hcnt := stepThread_strict_counters hs hp'
-    refine ⟨fun u => ?_, by rw [hcnt.1, hcnt.2.2, hi.obt], by rw [hcnt.2.1, hi.ret]⟩
+    refine ⟨fun u => ?_, by rw [hcnt.1, hcnt.2.2.1, hi.obt], by rw [hcnt.2.1, hi.ret], by rw [hcnt.2.2.2, hi.bufs]⟩
     by_cases e : u = t
     · subst e
       rcases hp' with h1 | h1
@@ -166,14 +167,19 @@ theorem step_strict {c : Cfg} {s s' : State} (hm : c.mode = Mode.poolStrict) (h 
     split at hs
     · simp at hs
     · simp only [Option.some.injEq] at hs; subst hs
-      refine ⟨fun u => ?_, hi.obt, hi.ret⟩
+      refine ⟨fun u => ?_, hi.obt, hi.ret, hi.bufs⟩
       simp only [State.setTh]; split
       · exact Or.inl rfl
       · exact hi.pcs u
 
 theorem reach_strict {c : Cfg} {s : State} (hm : c.mode = Mode.poolStrict) (h : Reach c s) : StrictInv c s := by
   refine Reachable.invariant (StrictInv c) ?_ ?_ s h
-  · intro s hs; subst hs; exact ⟨fun t => Or.inl rfl, rfl, rfl⟩
+  · intro s hs; subst hs
+    refine ⟨fun t => Or.inl rfl, rfl, rfl, ?_⟩
+    simp only [State.init]
+    induction c.nthreads with
+    | zero => rfl
+    | succ n ih => simp [List.replicate_succ, ih]
   · intro s s' hi hst; exact step_strict hm hst hi
 
 /-! ### a blocked pop is enabled by the matching push -/
@@ -319,9 +325,9 @@ macro "logclose" : tactic =>
   `(tactic| (first
       | exact ⟨rfl, rfl⟩
       | (simp only [State.setTh, setCtr_recLog, setCtr_pushLog, and_self]; done)
-      | ((try simp only [State.setTh, setCtr_recLog, setCtr_pushLog]); exact ⟨(acquire_counters (by assumption)).2.2.2.1, (acquire_counters (by assumption)).2.2.2.2⟩)
-      | ((try simp only [State.setTh, setCtr_recLog, setCtr_pushLog]); exact ⟨(takeVal_counters (by assumption)).2.2.2.1, (takeVal_counters (by assumption)).2.2.2.2⟩)
-      | ((try simp only [State.setTh, setCtr_recLog, setCtr_pushLog]); exact ⟨(publish_counters (by assumption)).2.2.2.1, (publish_counters (by assumption)).2.2.2.2⟩)))
+      | ((try simp only [State.setTh, setCtr_recLog, setCtr_pushLog]); exact ⟨(acquire_counters (by assumption)).2.2.2.1, (acquire_counters (by assumption)).2.2.2.2.1⟩)
+      | ((try simp only [State.setTh, setCtr_recLog, setCtr_pushLog]); exact ⟨(takeVal_counters (by assumption)).2.2.2.1, (takeVal_counters (by assumption)).2.2.2.2.1⟩)
+      | ((try simp only [State.setTh, setCtr_recLog, setCtr_pushLog]); exact ⟨(publish_counters (by assumption)).2.2.2.1, (publish_counters (by assumption)).2.2.2.2.1⟩)))
 
 macro "logleaves" h:ident : tactic =>
   `(tactic| ((try dsimp only at $h:ident) <;> (repeat' split at $h:ident) <;> (try (simp at $h:ident; done)) <;>
@@ -380,5 +386,183 @@ theorem stepThread_logs {c : Cfg} {s s' : State} {t : Tid} {tok : Tok} {spur : B
   · unfold stepSCas at h; logleaves h
   · unfold stepSCb at h; logleaves h
   · unfold stepSPub at h; logleaves h
+
+
+theorem recInv_step_aux {c : Cfg} {s s' : State} {t : Tid} (ht : t < c.nthreads) (hf : Frame s s' t) (hi : RecInv c s)
+    (h : ∀ o, s'.pushLog.count o + (pendOf (s.th t)).count o = s.pushLog.count o + (s'.recLog.count o - s.recLog.count o) + (pendOf (s'.th t)).count o)
+    (hmono : ∀ o, s.recLog.count o ≤ s'.recLog.count o) : RecInv c s' := by
+  intro o
+  have h1 := pend_count c s t o ht
+  have h2 := pend_count c s' t o ht
+  rw [pend_rest_frame hf] at h2
+  have := hi o
+  have := h o
+  have := hmono o
+  omega
+
+theorem callOp_rec {c : Cfg} {s s' : State} {t : Tid} {op : Op} (h : callOp c s t op = some s') (hie : IdleEmpty s) :
+    (s.th t).pc = .idle ∧
+    ((∃ o, op = .push o ∧ s'.pushLog = o :: s.pushLog ∧ s'.recLog = s.recLog ∧ pendOf (s'.th t) = [o]) ∨
+     (s'.pushLog = s.pushLog ∧ s'.recLog = s.recLog ∧ pendOf (s'.th t) = [])) := by
+  unfold callOp at h; dsimp only at h
+  split at h
+  · simp at h
+  · rename_i hidle
+    have hidle' : (s.th t).pc = .idle := by simpa using hidle
+    refine ⟨hidle', ?_⟩
+    have hempty := hie t hidle'
+    simp only [Th.toks, List.append_eq_nil_iff] at hempty
+    cases op with
+    | push o =>
+      dsimp only at h
+      (repeat' split at h) <;> (try (simp at h; done)) <;> simp only [Option.some.injEq] at h <;> subst h
+      all_goals (left; exact ⟨o, rfl, rfl, rfl, by simp [pendOf, State.setTh, hempty.1.1]⟩)
+    | inject o =>
+      dsimp only at h
+      split at h
+      · simp at h
+      · simp only [Option.some.injEq] at h; subst h
+        right; exact ⟨rfl, rfl, by simp [pendOf, hidle']⟩
+    | alloc n =>
+      dsimp only at h
+      (repeat' split at h) <;> (try (simp at h; done)) <;> simp only [Option.some.injEq] at h <;> subst h <;>
+        (right; exact ⟨rfl, rfl, by simp [pendOf, State.setTh, startAlloc]⟩)
+    | dealloc ps =>
+      dsimp only at h
+      (repeat' split at h) <;> (try (simp at h; done)) <;> simp only [Option.some.injEq] at h <;> subst h <;>
+        (right; exact ⟨rfl, rfl, by simp [pendOf, State.setTh, startDealloc]⟩)
+    | dtor =>
+      dsimp only at h
+      (repeat' split at h) <;> (try (simp at h; done)) <;> simp only [Option.some.injEq] at h <;> subst h <;>
+        (right; exact ⟨rfl, rfl, by simp [pendOf, State.setTh]⟩)
+    | bdtor o =>
+      dsimp only at h
+      (repeat' split at h) <;> (try (simp at h; done)) <;> simp only [Option.some.injEq] at h <;> subst h <;>
+        (right; exact ⟨rfl, rfl, by simp [pendOf, State.setTh]⟩)
+    | pop =>
+      dsimp only at h
+      (repeat' split at h) <;> (try (simp at h; done)) <;> simp only [Option.some.injEq] at h <;> subst h <;>
+        (right; exact ⟨rfl, rfl, by simp [pendOf, State.setTh, startAlloc]⟩)
+    | tryPop =>
+      dsimp only at h
+      (repeat' split at h) <;> (try (simp at h; done)) <;> simp only [Option.some.injEq] at h <;> subst h <;>
+        (right; exact ⟨rfl, rfl, by simp [pendOf, State.setTh]⟩)
+
+theorem stepPRecycle_rec {c : Cfg} {s s' : State} {t : Tid} {tok : Tok} {spur : Bool} {l : Option Act}
+    (h : stepThread c s t tok spur = some (s', l)) (hp : (s.th t).pc = .pRecycle) :
+    ∃ o, (s.th t).pages = [o] ∧ s'.recLog = o :: s.recLog ∧ s'.pushLog = s.pushLog := by
+  unfold stepThread at h; dsimp only at h
+  rw [hp] at h; dsimp only at h
+  unfold stepPRecycle at h
+  split at h
+  · rename_i o hpg
+    dsimp only at h
+    split at h <;> simp only [Option.some.injEq, Prod.mk.injEq] at h <;> obtain ⟨hres, -⟩ := h <;> subst hres <;>
+      exact ⟨o, hpg, rfl, rfl⟩
+  · simp at h
+
+theorem step_recInv {c : Cfg} {s s' : State} (h : Step c s s') (hie : IdleEmpty s) (hi : RecInv c s) : RecInv c s' := by
+  cases h with
+  | thread t tok spur l ht hs =>
+    have hf := (stepThread_delta hs).1
+    have hflow := stepThread_flow hs
+    have hne : (s.th t).pc ≠ .idle := stepThread_pc_ne_idle hs
+    have hnr : (s.th t).pc ≠ .retWait := by
+      intro e; unfold stepThread at hs; simp [e] at hs
+    have hp' : (s'.th t).pc ≠ .pRecycle := flow_not_pRecycle hflow hne hnr
+    have hpend' : pendOf (s'.th t) = [] := by simp [pendOf, hp']
+    by_cases hp : (s.th t).pc = .pRecycle
+    · obtain ⟨o, hpg, hr, hpl⟩ := stepPRecycle_rec hs hp
+      have hpend : pendOf (s.th t) = [o] := by simp [pendOf, hp, hpg]
+      refine recInv_step_aux ht hf hi (fun a => ?_) (fun a => ?_)
+      · rw [hpend, hpend', hr, hpl]; simp [List.count_cons]
+      · rw [hr]; simp [List.count_cons]
+    · obtain ⟨hr, hpl⟩ := stepThread_logs hs hp
+      have hpend : pendOf (s.th t) = [] := by simp [pendOf, hp]
+      refine recInv_step_aux ht hf hi (fun a => ?_) (fun a => ?_)
+      · rw [hpend, hpend', hr, hpl]; simp
+      · rw [hr]; exact Nat.le_refl _
+  | call t op ht hs =>
+    have hf := (callOp_delta hs).1
+    obtain ⟨hidle, hc⟩ := callOp_rec hs hie
+    have hpend : pendOf (s.th t) = [] := by simp [pendOf, hidle]
+    rcases hc with ⟨o, -, hpl, hr, hp'⟩ | ⟨hpl, hr, hp'⟩
+    · refine recInv_step_aux ht hf hi (fun a => ?_) (fun a => ?_)
+      · rw [hpend, hp', hr, hpl]; simp [List.count_cons]
+      · rw [hr]; exact Nat.le_refl _
+    · refine recInv_step_aux ht hf hi (fun a => ?_) (fun a => ?_)
+      · rw [hpend, hp', hr, hpl]; simp
+      · rw [hr]; exact Nat.le_refl _
+  | ret t ht hs =>
+    have hf := (retOp_delta hs).1
+    unfold retOp at hs; dsimp only at hs
+    split at hs
+    · simp at hs
+    · rename_i hrw
+      have hrw' : (s.th t).pc = .retWait := by simpa using hrw
+      simp only [Option.some.injEq] at hs; subst hs
+      refine recInv_step_aux ht hf hi (fun a => ?_) (fun a => Nat.le_refl _)
+      simp [pendOf, State.setTh, hrw']
+
+theorem reach_recInv {c : Cfg} {s : State} (h : Reach c s) : RecInv c s := by
+  have : IdleEmpty s ∧ RecInv c s := by
+    refine Reachable.invariant (fun s => IdleEmpty s ∧ RecInv c s) ?_ ?_ s h
+    · intro s hs; subst hs
+      refine ⟨fun t _ => by simp [State.init, Th.toks], fun o => ?_⟩
+      have : pend c (State.init c) = [] := by
+        unfold pend
+        apply List.flatMap_eq_nil_iff.mpr
+        intro t _; simp [pendOf, State.init]
+      rw [this]; simp [State.init]
+    · intro s s' hi hst; exact ⟨step_idleEmpty hst hi.1, step_recInv hst hi.1 hi.2⟩
+  exact this.2
+
+/-- at quiescence nothing is pending -/
+theorem pend_quiescent {c : Cfg} {s : State} (hq : Quiescent c s) : pend c s = [] := by
+  unfold pend
+  apply List.flatMap_eq_nil_iff.mpr
+  intro t ht
+  simp [pendOf, hq t (List.mem_range.mp ht)]
+
+
+theorem pend_le_thToks (c : Cfg) (s : State) (o : Tok) : (pend c s).count o ≤ (thToks c s).count o := by
+  unfold pend thToks
+  induction (List.range c.nthreads) with
+  | nil => simp
+  | cons t ts ih =>
+    simp only [List.flatMap_cons, List.count_append]
+    have : (pendOf (s.th t)).count o ≤ ((s.th t).toks).count o := by
+      unfold pendOf Th.toks
+      split <;> (simp [List.count_append]; try omega)
+    omega
+
+/-- the overflow step of `ObjectPool::push` in auto mode sends exactly the pushed object upstream -/
+theorem pDestroy_step {c : Cfg} {s s' : State} {t : Tid} {tok : Tok} {spur : Bool} {l : Option Act}
+    (ht : t < c.nthreads) (hpc : (s.th t).pc = .pDestroy) (h : stepThread c s t tok spur = some (s', l)) :
+    ∃ o, (s.th t).pages = [o] ∧ l = some (.ev ["up_free", toString o]) ∧ s'.returned = s.returned + 1 ∧
+      (s'.th t).pc = .retWait ∧ (toks c s).Perm (o :: toks c s') := by
+  have hfr := (stepThread_delta h).1
+  unfold stepThread at h; dsimp only at h
+  rw [hpc] at h; dsimp only at h
+  unfold stepPDestroy at h
+  split at h
+  · rename_i o hpg
+    simp only [Option.some.injEq, Prod.mk.injEq] at h
+    obtain ⟨hres, hl⟩ := h
+    subst hres
+    refine ⟨o, hpg, hl.symm, rfl, by simp [State.setTh], List.perm_iff_count.mpr fun a => ?_⟩
+    rw [toks_count c s t a ht, List.count_cons, toks_count c _ t a ht, restToks_frame hfr]
+    simp only [coreCnt, State.setTh, cacheToks, hpg, if_true, List.count_cons, List.count_nil]
+    by_cases e : o = a
+    · subst e; simp; omega
+    · simp [e]
+  · simp at h
+
+/-! ### no thread buffers outside the batch allocator -/
+theorem finish_bufs {c : Cfg} {S R : State} {t : Tid} {th : Th} (h : finish c S t th = some R) :
+    R.bufs = S.bufs ∨ (th.dir = .pop ∧ th.cont = .refill) := by
+  unfold finish at h
+  (repeat' split at h) <;> (try (simp at h; done)) <;> simp only [Option.some.injEq] at h <;> subst h <;>
+    first | (left; rfl) | (right; constructor <;> assumption)
 
 end Babylon.Pages
